@@ -108,6 +108,14 @@ pub fn shuffle_words(rng: &mut SymRng, n: usize) {
     }
 }
 
+/// advance `rng` exactly as a shuffle of `n` items does (for harnesses of crates that do not
+/// depend on `rand` themselves)
+pub fn shuffle_n<R: RngCore>(rng: &mut R, n: usize) {
+    use rand::seq::SliceRandom;
+    let mut items = [0u8; 8];
+    items[..n].shuffle(rng);
+}
+
 #[cfg(not(kani))]
 pub fn lookup(name: &str) -> Option<fn()> {
     crate::env::verif_proofs::lookup(name)
